@@ -26,6 +26,9 @@
 // name first used as an index and later made an alias; every created document must be found
 // by a query on the index AND by a query through every alias of it, and nothing may be filed
 // under an alias name (model: SigM.BulkAlias, the history is replayed inside Coq).
+// "concurrent" (conc.go): rounds of 2-6 bulk requests served AT THE SAME TIME, released together
+// through a starting gate, first writes of new indexes among them; one flush; the per-request
+// oracle; plus sustained ungated concurrent requests (model: SigM.BulkConc).
 package main
 
 import (
@@ -690,7 +693,7 @@ func describe(c bodyCase, texts []string) interface{} {
 		}
 		d["alias_scenario"] = map[string]interface{}{"names": names, "earlier_requests_of_the_scenario": scnLog[c.Scn],
 			"alias_definitions_before_this_request": aliasOpsText(c.AliasOps),
-			"note": "one process; every request is followed by a flush and by queries on every name of the scenario; PUT /<index>/_alias/<alias> through ProcessPutAliasesRequest"}
+			"note":                                  "one process; every request is followed by a flush and by queries on every name of the scenario; PUT /<index>/_alias/<alias> through ProcessPutAliasesRequest"}
 	}
 	if len(c.Prelude) > 0 {
 		d["earlier_requests_of_the_process"] = c.Prelude
@@ -730,18 +733,53 @@ func statusOf(item interface{}) int {
 
 // runs the real code on the case; returns observation, oracle failures, rendered lines
 func evaluateCore(c bodyCase) (obs observation, fails []failure, texts []string, lens []int, herr string) {
+	p, herr := prepare(c)
+	if herr != "" {
+		return
+	}
+	p.serve()
+	if p.parseResponse() {
+		// ---- the next flush, then search every index for this body's documents ----
+		flush()
+		herr = p.judge()
+	}
+	return p.obs, p.fails, p.texts, p.lens, herr
+}
+
+// one bulk request on its way through the harness: prepare (render; sequential), serve (the real HandleBulkBody;
+// touches nothing but p, so several requests may be served at the same time), parseResponse, [flush], judge
+// (searches + the property oracle; sequential)
+type prepared struct {
+	c      bodyCase
+	no     int // evaluation number: tag k<no>, timestamps of {"timestamp":T} documents
+	tag    string
+	texts  []string
+	lens   []int
+	body   string
+	acts   []action
+	before map[string]uint64
+	respJS []byte
+	t0, t1 uint64
+	obs    observation
+	fails  []failure
+	// concurrent waves: the items as the response carried them, when they are not this request's own (see conc.go)
+	overwritten bool
+	rawItems    []int
+}
+
+func prepare(c bodyCase) (p *prepared, herr string) {
 	evalNo++
-	tag := fmt.Sprintf("k%d", evalNo)
+	p = &prepared{c: c, no: evalNo, tag: fmt.Sprintf("k%d", evalNo)}
 	for i, l := range c.Lines {
-		t := l.render(tag, i)
-		texts = append(texts, t)
-		lens = append(lens, len(t))
+		t := l.render(p.tag, i)
+		p.texts = append(p.texts, t)
+		p.lens = append(p.lens, len(t))
 	}
-	body := strings.Join(texts, "\n")
+	p.body = strings.Join(p.texts, "\n")
 	if c.FinalNL {
-		body += "\n"
+		p.body += "\n"
 	}
-	acts := grammar(c.Lines, lens, c.FinalNL)
+	p.acts = grammar(c.Lines, p.lens, c.FinalNL)
 
 	// ---- alias scenarios: the alias definitions that precede this request, the stores' record counts ----
 	for _, op := range c.AliasOps {
@@ -752,45 +790,51 @@ func evaluateCore(c bodyCase) (obs observation, fails []failure, texts []string,
 			aliasDefined[op[0]] = true
 		}
 	}
-	var before map[string]uint64
 	if c.Scn != 0 {
-		before = tableCounts()
+		p.before = tableCounts()
 	}
+	return
+}
 
-	// ---- the real HandleBulkBody ----
-	var respJS []byte
-	var t0, t1 uint64
-	func() {
-		defer func() {
-			if r := recover(); r != nil {
-				fails = append(fails, failure{"bulk_handler_panic", fmt.Sprintf("HandleBulkBody panicked: %v", r)})
-			}
-		}()
-		time.Sleep(2 * time.Millisecond) // {} documents get the arrival time: keep the windows of consecutive bodies apart
-		t0 = uint64(time.Now().UnixMilli())
-		n, resp, err := eswriter.HandleBulkBody([]byte(body), nil, 0, 0, false)
-		t1 = uint64(time.Now().UnixMilli())
-		obs.Processed, obs.AllFailed = n, err != nil
-		respJS, _ = json.Marshal(resp) // as utils.WriteJsonResponse does, before the pooled items slice is reused
+// ---- the real HandleBulkBody ----
+func (p *prepared) serve() {
+	defer func() {
+		if r := recover(); r != nil {
+			p.fails = append(p.fails, failure{"bulk_handler_panic", fmt.Sprintf("HandleBulkBody panicked: %v", r)})
+		}
 	}()
-	if respJS == nil {
-		return
+	time.Sleep(2 * time.Millisecond) // {} documents get the arrival time: keep the windows of consecutive bodies apart
+	p.t0 = uint64(time.Now().UnixMilli())
+	n, resp, err := eswriter.HandleBulkBody([]byte(p.body), nil, 0, 0, false)
+	p.t1 = uint64(time.Now().UnixMilli())
+	p.obs.Processed, p.obs.AllFailed = n, err != nil
+	p.respJS, _ = json.Marshal(resp) // as utils.WriteJsonResponse does, before the pooled items slice is reused
+}
+
+func (p *prepared) parseResponse() bool {
+	if p.respJS == nil {
+		return false
 	}
 	var resp struct {
 		Errors *bool         `json:"errors"`
 		Items  []interface{} `json:"items"`
 	}
-	if err := json.Unmarshal(respJS, &resp); err != nil || resp.Errors == nil {
-		fails = append(fails, failure{"bulk_response_malformed", "response is not {errors, items}: " + string(respJS[:min(len(respJS), 200)])})
-		return
+	if err := json.Unmarshal(p.respJS, &resp); err != nil || resp.Errors == nil {
+		p.fails = append(p.fails, failure{"bulk_response_malformed", "response is not {errors, items}: " + string(p.respJS[:min(len(p.respJS), 200)])})
+		return false
 	}
-	obs.Errors = *resp.Errors
+	p.obs.Errors = *resp.Errors
 	for _, it := range resp.Items {
-		obs.Items = append(obs.Items, statusOf(it))
+		p.obs.Items = append(p.obs.Items, statusOf(it))
 	}
+	return true
+}
 
-	// ---- the next flush, then search every index for this body's documents ----
-	flush()
+// after the flush: search every index for this body's documents, then the property on the observables
+func (p *prepared) judge() (herr string) {
+	c, evalNo, tag, texts, acts, before, t0, t1 := p.c, p.no, p.tag, p.texts, p.acts, p.before, p.t0, p.t1
+	obs, fails := p.obs, p.fails
+	defer func() { p.obs, p.fails = obs, fails }()
 	used := map[int]bool{}
 	for _, l := range c.Lines {
 		if l.Idx != 0 {
@@ -1665,11 +1709,14 @@ func main() {
 	rF, rFF := rng.Fork(), rng.Fork()
 	rA := rng.Fork()
 	rAl := rng.Fork()
+	rC := rng.Fork()
 	nMain, nKnown, nUnsafe, nFieldless, nFresh, nAfter := 230, 22, 70, 40, 3, 40
 	nAlias := 24 // scenarios of 2-4 requests
+	nConc := 12  // rounds of 2-6 requests served at the same time (1-2 waves)
 	if cfg.Thorough() {
 		nMain, nKnown, nUnsafe, nFieldless, nFresh, nAfter = 2400, 150, 500, 300, 10, 300 // one process: flush+search get slower as the store grows (7200 bodies took 17 min)
 		nAlias = 200
+		nConc = 72
 	}
 	// prime c15h1..3: the first block of their segment holds an ordinary document
 	for ix := 5; ix <= 7; ix++ {
@@ -1875,6 +1922,17 @@ func main() {
 	flushShard()
 	flushHist()
 	flushAlias()
+	// last: concurrent requests (one kind of round rotates every segment of the process)
+	tc := time.Now()
+	runConcurrent(cfg, sum, rC, nConc, known, reported)
+	sum.Notes = append(sum.Notes, fmt.Sprintf("%d rounds of concurrent bulk requests in %.1fs", nConc, time.Since(tc).Seconds()))
+	tc = time.Now()
+	sliceG, sliceM := 16, 4000
+	if cfg.Thorough() {
+		sliceG, sliceM = 16, 4500
+	}
+	runResponseSlice(cfg, sum, sliceG, sliceM, reported)
+	sum.Notes = append(sum.Notes, fmt.Sprintf("%d x %d requests of sustained concurrent bulk ingest in %.1fs", sliceG, sliceM, time.Since(tc).Seconds()))
 	sum.Notes = append(sum.Notes, fmt.Sprintf("%d bodies through the real HandleBulkBody + flush + search in %.1fs", len(cases), time.Since(t0).Seconds()))
 	sum.Write(cfg.Out)
 }
